@@ -14,6 +14,8 @@ import core
 EQUIV_DEPS = {
     'Equiv_bits': ['Gen_bitstring_py', 'Gen_bitstring_h', 'Gen_settings'],
     'Equiv_binom': ['Gen_binom_h'],
+    'Equiv_cexpr': ['Gen_bitstring_h_ast'],
+    'Equiv_cdef': ['Gen_bitstring_h_ast'],
     'Equiv_gosper': ['Gen_gosper_c'],
     'Equiv_guards': ['Gen_util_guards'],
 }
@@ -213,6 +215,17 @@ def run_check(pid, tier, seed, replay=None):
                                   'how': './check %s --replay <this file>' % pid})
         violations.append((path, False, bad2[0]))
 
+    # ---------------- 4a. property-specific global checks (run BEFORE the broken-proof stage: they may supply the failing input)
+    # extra, property-specific global checks (e.g. direct C-vs-PY diffs, sanitizer runs)
+    if hasattr(mod, 'extra_checks'):
+        for desc, rp_obj, fid in mod.extra_checks(bdir, model, rng, tier, stats):
+            listed = [f for f in my_findings if f['id'] == fid] if fid else []
+            if listed:
+                known_seen.setdefault(fid, listed[0]['what'])
+                continue
+            path = core.write_replay(pid, 'extra_%d' % len(violations), rp_obj)
+            violations.append((path, False, desc))
+
     # ---------------- 4. broken proofs: search for a failing input
     for f, blog, bad_ax in broken:
         found = None
@@ -232,16 +245,6 @@ def run_check(pid, tier, seed, replay=None):
                                                           'bad_axioms': bad_ax,
                                                           'note': 'theorem file no longer checks; no failing input found'})
             violations.append((path, not any(not v[1] for v in violations), 'proof obligation %s no longer checks' % f))
-
-    # extra, property-specific global checks (e.g. direct C-vs-PY diffs, sanitizer runs)
-    if hasattr(mod, 'extra_checks'):
-        for desc, rp_obj, fid in mod.extra_checks(bdir, model, rng, tier, stats):
-            listed = [f for f in my_findings if f['id'] == fid] if fid else []
-            if listed:
-                known_seen.setdefault(fid, listed[0]['what'])
-                continue
-            path = core.write_replay(pid, 'extra_%d' % len(violations), rp_obj)
-            violations.append((path, False, desc))
 
     model.close()
 
